@@ -57,7 +57,16 @@ func init() {
 	ext["internal/abi.NoEscape"] = func(in *Interp, fr *frame, args []value) value { return args[0] }
 	ext["internal/abi.Escape[T any]"] = func(in *Interp, fr *frame, args []value) value { return args[0] }
 	ext["internal/bytealg.MakeNoZero"] = func(in *Interp, fr *frame, args []value) value {
-		n := int(asInt(args[0]))
+		var n int
+		switch a := args[0].(type) {
+		case uint64:
+			n = int(a)
+		case *Term:
+			n = int(in.concretize(a, "makenozero"))
+		}
+		if n < 0 || n > 1<<26 {
+			panic(pathAbort{"budget", fmt.Sprintf("MakeNoZero of %d bytes", n)})
+		}
 		s := make([]value, n)
 		for i := range s {
 			s[i] = uint64(0)
